@@ -61,3 +61,8 @@ func init() {
 	register("C13", ruleQRFormulas)
 	register("C10", ruleQRFormulas)
 }
+
+func init() {
+	register("C16", ruleConcurrency)
+	register("C15", ruleConcurrency)
+}
